@@ -148,6 +148,10 @@ def trace_close(repo, sc) -> RunTrace:
     tr = RunTrace(sc)
     state = {"output_file": Opaque("OUT"), "tmp_file": Opaque("TMP") if sc["tmp"] else None, "tmp_path": "p.h5.tmp" if sc["tmp"] else None,
              "tempdir": Opaque("TEMPDIR") if sc["tempdir"] else None, "logger": Opaque("logger"), "output_path": "p.h5"}
+    # what the handler has recorded so far: the frame group of the model output file (a missing frame is a KeyError, as in h5py)
+    frames = sc.get("frames", 2)
+    state["save_number"] = frames
+    state["time_step_group"] = {str(k): Opaque(f"FRAME{k}") for k in range(frames)}
     mach = _machine(repo, tr, set(), state, sc["method"])
     params = [a.arg for a in f.node.args.args]
     mach.env["self"] = Opaque("self")
